@@ -27,6 +27,9 @@ type combo struct {
 	mk func(r io.Reader, salt, wf int) (pkcs.PBESEncrypter, error)
 	// spec is the same choice for the reference encoder (nil: not modelled)
 	spec func(wf int) *pbes.Spec
+	// alt is a second encoding of the same choice where the standard defines a DEFAULT
+	// (PBKDF2-params.prf left out); nil when there is none
+	alt func(wf int) *pbes.Spec
 }
 
 var iterations = []int{1, 2, 7}
@@ -68,6 +71,7 @@ var combos = func() []combo {
 				spec: func(wf int) *pbes.Spec {
 					return &pbes.Spec{Cipher: ci.name, PRF: hi.name, Iter: iterations[wf], KeyLen: wf == 1}
 				},
+				alt: defaultPRFAbsent("PBES2", "PBKDF2", hi.name, ci.name, func(wf int) int { return iterations[wf] }),
 			})
 		}
 		out = append(out, combo{
@@ -142,6 +146,134 @@ var combos = func() []combo {
 	return out
 }()
 
+// defaultPRFAbsent returns the reference encoding of the choice (scheme, kdf, prf, cipher) with
+// PBKDF2-params.prf left out when prf is the DEFAULT of that KDF identifier - hmacWithSHA1 under
+// PKCS#5 PBKDF2 (RFC 8018 A.2), HMAC-SM3 under the ShangMi PBKDF identifier (GM/T 0091) - and nil otherwise.
+func defaultPRFAbsent(scheme, kdf, prf, cipher string, iter func(wf int) int) func(wf int) *pbes.Spec {
+	if !(kdf == "PBKDF2" && prf == "SHA1") && !(kdf == "SMPBKDF" && prf == "SM3") {
+		return nil
+	}
+	return func(wf int) *pbes.Spec {
+		return &pbes.Spec{Scheme: scheme, KDF: kdf, Cipher: cipher, Iter: iter(wf), KeyLen: wf == 2}
+	}
+}
+
+// pbkdf2Opts builds the PBKDF2 options for a KDF identifier and a PRF in one of the ways the API offers:
+// the constructor (for the ShangMi identifier the exported HMACHash field is then set), or - PKCS#5
+// identifier only - a struct literal, whose unexported identifier field stays nil.
+func pbkdf2Opts(kdf string, h pkcs.Hash, salt, iter int, literal bool) pkcs.PBKDF2Opts {
+	if kdf == "SMPBKDF" {
+		o := pkcs.NewSMPBKDF2Opts(salt, iter)
+		o.HMACHash = h
+		return o
+	}
+	if literal {
+		return pkcs8.PBKDF2Opts{SaltSize: salt, IterationCount: iter, HMACHash: h}
+	}
+	return pkcs.NewPBKDF2Opts(h, salt, iter)
+}
+
+func libCipher(name string) pkcs.Cipher {
+	for _, ci := range libCiphers {
+		if ci.name == name {
+			return ci.c
+		}
+	}
+	panic("c14: unknown cipher " + name)
+}
+
+// optionCiphers is the cut through the ciphers for the option products below: every mode, every key size class.
+var optionCiphers = []string{"SM4-CBC", "SM4-GCM", "SM4-ECB", "AES-256-CBC", "AES-128-GCM", "DES-EDE3-CBC"}
+
+// optionCombos is the product the main table does not hold: KDF identifier (PKCS#5 PBKDF2 / ShangMi PBKDF)
+// x every PRF the options accept x scheme identifier (PBES2 / ShangMi PBES) x the way the encrypter is
+// built (NewPBESEncrypter, NewSMPBESEncrypterWithKDF, pkcs8.Opts literal around constructor-made or
+// literal KDF options) x a cut through the ciphers. iter maps the work-factor index to the iteration count.
+func optionCombos(iter func(wf int) int) []combo {
+	var out []combo
+	add := func(via, scheme, kdf string, hname string, h pkcs.Hash, cname string, literal bool) {
+		ci := libCipher(cname)
+		kname := kdf + "-" + hname
+		out = append(out, combo{
+			name: scheme + "/" + kname + "/" + cname + " via " + via, gcm: isGCM(cname),
+			mk: func(_ io.Reader, salt, wf int) (pkcs.PBESEncrypter, error) {
+				o := pbkdf2Opts(kdf, h, salt, iter(wf), literal)
+				switch via {
+				case "NewSMPBESEncrypterWithKDF":
+					return pkcs.NewSMPBESEncrypterWithKDF(o), nil
+				case "Opts-literal":
+					return &pkcs8.Opts{Cipher: ci, KDFOpts: o}, nil
+				}
+				return pkcs.NewPBESEncrypter(ci, o), nil
+			},
+			spec: func(wf int) *pbes.Spec {
+				return &pbes.Spec{Scheme: scheme, KDF: kdf, Cipher: cname, PRF: hname, Iter: iter(wf), KeyLen: wf == 1}
+			},
+			alt: defaultPRFAbsent(scheme, kdf, hname, cname, iter),
+		})
+	}
+	for _, hi := range libHashes {
+		for _, cn := range optionCiphers {
+			add("NewPBESEncrypter", "PBES2", "SMPBKDF", hi.name, hi.h, cn, false)
+		}
+		for _, kdf := range []string{"PBKDF2", "SMPBKDF"} {
+			add("NewSMPBESEncrypterWithKDF", "SMPBES", kdf, hi.name, hi.h, "SM4-CBC", false)
+			add("Opts-literal", "PBES2", kdf, hi.name, hi.h, optionCiphers[(int(hi.h)+len(kdf))%len(optionCiphers)], kdf == "PBKDF2")
+		}
+	}
+	return out
+}
+
+// parameter extremes: salt sizes and work factors on both sides of the DER length / INTEGER boundaries
+// (127/128, 255/256, 32767/32768) and the smallest ones
+var extremeSalts = []int{1, 127, 128, 256}
+var extremeIters = []int{127, 128, 255, 256, 32768}
+var extremeScrypt = [][3]int{{128, 1, 1}, {256, 1, 1}, {16, 8, 1}, {2, 1, 128}, {2, 127, 1}}
+
+// extremeCombos: one combination per KDF kind and scheme (PBKDF2, ShangMi PBKDF under ShangMi PBES, scrypt,
+// PBES1) for the parameter extremes; k selects the work factor from the tables above.
+func extremeCombos(k int) []combo {
+	it := extremeIters[k%len(extremeIters)]
+	sw := extremeScrypt[k%len(extremeScrypt)]
+	iter := func(int) int { return it }
+	cs := []combo{
+		{name: fmt.Sprintf("PBES2/PBKDF2-SHA256/AES-128-CBC iter=%d", it),
+			mk: func(_ io.Reader, salt, _ int) (pkcs.PBESEncrypter, error) {
+				return pkcs.NewPBESEncrypter(pkcs.AES128CBC, pkcs.NewPBKDF2Opts(pkcs.SHA256, salt, it)), nil
+			},
+			spec: func(int) *pbes.Spec { return &pbes.Spec{Cipher: "AES-128-CBC", PRF: "SHA256", Iter: it, KeyLen: true} }},
+		{name: fmt.Sprintf("PBES2/PBKDF2-SHA1/SM4-GCM iter=%d", it), gcm: true,
+			mk: func(_ io.Reader, salt, _ int) (pkcs.PBESEncrypter, error) {
+				return pkcs.NewPBESEncrypter(pkcs.SM4GCM, pkcs.NewPBKDF2Opts(pkcs.SHA1, salt, it)), nil
+			},
+			spec: func(int) *pbes.Spec { return &pbes.Spec{Cipher: "SM4-GCM", PRF: "SHA1", Iter: it} },
+			alt:  defaultPRFAbsent("PBES2", "PBKDF2", "SHA1", "SM4-GCM", iter)},
+		{name: fmt.Sprintf("SMPBES/SMPBKDF/SM4-CBC iter=%d", it),
+			mk: func(_ io.Reader, salt, _ int) (pkcs.PBESEncrypter, error) { return pkcs.NewSMPBESEncrypter(salt, it), nil },
+			spec: func(int) *pbes.Spec {
+				return &pbes.Spec{Scheme: "SMPBES", Cipher: "SM4-CBC", KDF: "SMPBKDF", PRF: "SM3", Iter: it}
+			},
+			alt: defaultPRFAbsent("SMPBES", "SMPBKDF", "SM3", "SM4-CBC", iter)},
+		{name: fmt.Sprintf("PBES2/scrypt/AES-256-GCM N=%d r=%d p=%d", sw[0], sw[1], sw[2]), gcm: true,
+			mk: func(_ io.Reader, salt, _ int) (pkcs.PBESEncrypter, error) {
+				return pkcs.NewPBESEncrypter(pkcs.AES256GCM, pkcs.NewScryptOpts(salt, sw[0], sw[1], sw[2])), nil
+			},
+			spec: func(int) *pbes.Spec {
+				return &pbes.Spec{Cipher: "AES-256-GCM", KDF: "scrypt", N: sw[0], R: sw[1], P: sw[2], KeyLen: k%2 == 0}
+			}},
+		{name: fmt.Sprintf("PBES1/SHA1/DES-CBC iter=%d", it),
+			mk: func(r io.Reader, salt, _ int) (pkcs.PBESEncrypter, error) {
+				return pkcs.NewPbeWithSHA1AndDESCBC(r, salt, it)
+			},
+			spec: func(int) *pbes.Spec { return &pbes.Spec{Scheme: "PBES1-SHA1-DES", Iter: it} }},
+		{name: fmt.Sprintf("PBES1/MD5/RC2-CBC iter=%d", it),
+			mk: func(r io.Reader, salt, _ int) (pkcs.PBESEncrypter, error) {
+				return pkcs.NewPbeWithMD5AndRC2CBC(r, salt, it)
+			}},
+	}
+	return cs
+}
+
 // sealP8 encrypts the key with the library (pkcs8.MarshalPrivateKey). All salts
 // and IVs come from the case generator.
 func sealP8(c *mon.Case, s *subject, pw []byte, cb combo, salt, wf int) []byte {
@@ -182,6 +314,44 @@ func pbesGrid(x *mon.Ctx) {
 					}
 				}
 			}
+		}
+	}
+	// the option x option products the table above leaves out, each once per work-factor index with
+	// salt size, password kind and key in rotation
+	for i, cb := range optionCombos(func(wf int) int { return iterations[wf] }) {
+		for wf := 0; wf < 3; wf++ {
+			n++
+			salt := []int{8, 16, 20}[(i+wf)%3]
+			pk := passwordKinds[(i+wf)%len(passwordKinds)]
+			label := cheapLabels[(n*7)%len(cheapLabels)]
+			c := x.Begin("pbes options %s salt=%d wf=%d password=%s key=%s", cb.name, salt, wf, pk, label)
+			if c == nil {
+				continue
+			}
+			c.Class("pbes-options/%s/wf%d", cb.name, wf)
+			cb := cb
+			c.Call("pbes option case", func() { pbesCase(c, cb, salt, wf, pk, label, x.Scale(3, 6)) })
+			c.End()
+		}
+	}
+	// parameter extremes
+	k := 0
+	for _, salt := range extremeSalts {
+		for range extremeIters {
+			for j, cb := range extremeCombos(k) {
+				n++
+				pk := passwordKinds[(k+j)%len(passwordKinds)]
+				label := cheapLabels[(n*7)%len(cheapLabels)]
+				c := x.Begin("pbes parameter extremes %s salt=%d password=%s key=%s", cb.name, salt, pk, label)
+				if c == nil {
+					continue
+				}
+				c.Class("pbes-extremes/%s/salt%d", cb.name, salt)
+				cb := cb
+				c.Call("pbes extremes case", func() { pbesCase(c, cb, salt, 0, pk, label, 2) })
+				c.End()
+			}
+			k++
 		}
 	}
 	// the empty password: the library writes the unencrypted container
@@ -236,7 +406,7 @@ func pbesCase(c *mon.Case, cb combo, salt, wf int, pk, label string, nWrong int)
 	sum := sha256.Sum256(der)
 	c.Digest(fmt.Sprintf("pbes/%d", c.N), sum[:12])
 	// 1. the right password gives the key back
-	k, _, err := pkcs8.ParsePrivateKey(der, pw)
+	k, kdfParams, err := pkcs8.ParsePrivateKey(der, pw)
 	decoded(c, "pkcs8.MarshalPrivateKey("+cb.name+") -> ParsePrivateKey", s, k, err, "")
 	k, err = pkcs8.ParsePKCS8PrivateKey(der, pw)
 	decoded(c, "pkcs8.MarshalPrivateKey("+cb.name+") -> ParsePKCS8PrivateKey", s, k, err, "")
@@ -253,10 +423,32 @@ func pbesCase(c *mon.Case, cb combo, salt, wf int, pk, label string, nWrong int)
 		if len(info.Salt) != salt {
 			c.Event("salt_size_differs_from_request", 1)
 		}
+		// the KDF parameters handed back describe the container: declared key length as the reference reads it
+		if kdfParams != nil && (info.KDF == "PBKDF2" || info.KDF == "SMPBKDF" || info.KDF == "scrypt") {
+			var kl int
+			if c.Call("KDFParameters.KeyLength", func() { kl = kdfParams.KeyLength() }) {
+				c.Event("kdf_parameters_key_length_compared", 1)
+				if kl != info.KeyLen {
+					c.Fail("mismatch", "KeyLength() of the KDF parameters returned by ParsePrivateKey for the %s container is %d, the container declares %d", cb.name, kl, info.KeyLen)
+				}
+			}
+		}
 	}
-	// 3. a container written by the reference with the same choice opens to the same key
+	// 3. a container written by the reference with the same choice opens to the same key, in both
+	// encodings where a parameter holds its DEFAULT value (present / left out)
+	var specs []*pbes.Spec
 	if cb.spec != nil {
-		sp := cb.spec(wf)
+		specs = append(specs, cb.spec(wf))
+	}
+	if cb.alt != nil {
+		specs = append(specs, cb.alt(wf))
+		c.Event("default_parameter_in_both_encodings", 1)
+	}
+	for si, sp := range specs {
+		enc := cb.name
+		if si == 1 {
+			enc += " (default PRF left out)"
+		}
 		ivLen := 16
 		if cc := pbes.CipherByName(sp.Cipher); cc != nil {
 			ivLen = cc.Block
@@ -271,10 +463,10 @@ func pbesCase(c *mon.Case, cb combo, salt, wf int, pk, label string, nWrong int)
 			c.Inconclusive("reference encoder: %v", err)
 		} else {
 			k, _, err := pkcs8.ParsePrivateKey(der2, pw)
-			decoded(c, "reference-written "+cb.name+" container -> ParsePrivateKey", s, k, err, "")
+			decoded(c, "reference-written "+enc+" container -> ParsePrivateKey", s, k, err, "")
 			for _, w := range wrongPasswords(c.R, pw, 2) {
 				k, _, err := pkcs8.ParsePrivateKey(der2, w)
-				refused(c, fmt.Sprintf("pkcs8.ParsePrivateKey(reference-written %s container, wrong password %q)", cb.name, w), k, err)
+				refused(c, fmt.Sprintf("pkcs8.ParsePrivateKey(reference-written %s container, wrong password %q)", enc, w), k, err)
 			}
 		}
 	}
